@@ -41,7 +41,10 @@ def main():
     props = [prop]
     tier = "quick"
     keep = "--keep" in opts
+    label = ""
     for o in opts:
+        if o.startswith("--label="):
+            label = o.split("=", 1)[1] + "-"
         if o.startswith("--props="):
             props = o.split("=", 1)[1].split(",")
         if o.startswith("--tier="):
@@ -103,7 +106,7 @@ def main():
         results.append(rec)
         print(json.dumps(rec, indent=1))
         if keep and rec.get("confirmed"):
-            d = os.path.join(ROOT, "seeded", "%s-%s" % (prop, n))
+            d = os.path.join(ROOT, "seeded", "%s-%s%s" % (prop, label, n))
             os.makedirs(d, exist_ok=True)
             shutil.copy(os.path.join(seed_dir, pf), os.path.join(d, "patch.diff"))
             shutil.copy(demo, os.path.join(d, "demo_test.go"))
@@ -113,6 +116,14 @@ def main():
                     "ran": "tools/try_seed.py %s %s %s" % (seed_dir, prop, n), "checks": rec["checks"]}
             if os.path.exists(notes):
                 shutil.copy(notes, os.path.join(d, "agent_notes.md"))
+            # what the change needs in order to manifest: the section of the agent's notes about this patch
+            needs = ""
+            if os.path.exists(notes):
+                txt = open(notes).read()
+                m = re.search(r"(?is)(^#+[^\n]*patch\s*%s\b.*?)(?=^#+[^\n]*patch\s*\d|\Z)" % n, txt, re.M)
+                if m:
+                    needs = " ".join(m.group(1).split())[:1500]
+            meta["needs_to_manifest"] = needs
             json.dump(meta, open(os.path.join(d, "meta.json"), "w"), indent=1)
     summary = [(r["patch"], r.get("confirmed"), {p: c["verdict"] for p, c in r.get("checks", {}).items()}) for r in results]
     print("SUMMARY", prop, summary)
